@@ -487,7 +487,13 @@ impl<'a> UserModel<'a> {
         let style = self.model.get_style_for_cell(sheet, row, column)?;
 
         let line_count = value.split('\n').count() as f64;
-        let row_height = self.model.get_row_height(sheet, row)?;
+        // the height the row really has (0 would be reported for a hidden row, and undo would
+        // then store 0 as its height)
+        let row_height = self
+            .model
+            .workbook
+            .worksheet(sheet)?
+            .get_actual_row_height(row)?;
         // This is in sync with the front-end auto fit row
         let font_size = style.font.sz as f64;
         let line_height = font_size * 1.5;
